@@ -197,6 +197,22 @@ func scenario(c *run.Ctx, idx int) {
 	B := cl.G.B
 	W := cl.W
 	step := func(cs []cand, note string) (*types.Block, []cand) {
+		// the term-snapshot block stays empty: a vote change inside it is C10's known finding (NewTermRecord panics when
+		// the block becomes stable), not an authorisation verdict
+		for cl.IsSnapshotNext() {
+			res, err := M.Mine(cl.Head, cl.NextTime(), nil, "")
+			if err != nil {
+				return nil, nil
+			}
+			for _, e := range cl.InsertAll(res.Block) {
+				if e != nil {
+					return nil, nil
+				}
+			}
+			cl.Adopt(res.Block)
+			cl.StabiliseAll()
+			c.Stat("empty_snapshot_blocks", 1)
+		}
 		t := cl.NextTime()
 		var txs types.Transactions
 		for _, x := range cs {
